@@ -230,3 +230,7 @@ func vRunSpawned() int {
 	}
 	return n
 }
+
+// vSleep lets d pass on the clock the code under check reads (engine: the concrete clock
+// jumps; native: a real sleep).
+func vSleep(d time.Duration) { time.Sleep(d) }
